@@ -388,20 +388,31 @@ class KPreempt(RandomPolicy):
 
     name = 'k-preempt'
 
-    def __init__(self, rng, points):
+    def __init__(self, rng, points, first=None):
         super().__init__(rng)
         # points: {(tid, thread_step): hold}
         self.points = dict(points)
         self.hold_left = None
         self.back_to = None
+        self.first_tid = first
+
+    def first(self, sim):
+        if self.first_tid is not None:
+            return self.first_tid
+        return super().first(sim)
 
     def describe(self):
         return {'name': self.name, 'points': sorted([k[0], k[1], v] for k, v in self.points.items())}
 
     def decide(self, sim, t, kind):
         if self.hold_left is not None:
-            self.hold_left -= 1
-            if self.hold_left <= 0:
+            if self.hold_left == 'op':
+                # the peer runs exactly one whole operation (e.g. a purge) inside the victim's gap, then hands back
+                done = kind == 'opend' and t.idx != self.back_to
+            else:
+                self.hold_left -= 1
+                done = self.hold_left <= 0
+            if done:
                 self.hold_left = None
                 b = self.back_to
                 self.back_to = None
@@ -417,6 +428,48 @@ class KPreempt(RandomPolicy):
                 self.back_to = t.idx
             return tgt
         return None
+
+
+class PCT(Policy):
+    """Probabilistic concurrency testing: distinct random thread priorities, the highest-priority runnable thread
+    runs; at d-1 randomly chosen global steps the running thread's priority drops below everybody else's."""
+
+    name = 'pct'
+
+    def __init__(self, rng, nthreads, change_points):
+        self.rng = rng
+        order = list(range(nthreads))
+        rng.shuffle(order)
+        self.prio = {tid: nthreads - i for i, tid in enumerate(order)}
+        self.points = sorted(set(change_points))
+        self.low = 0
+
+    def describe(self):
+        return {'name': self.name, 'change_points': self.points}
+
+    def _best(self, sim, exclude=None):
+        r = sim.runnable(exclude=exclude)
+        if not r:
+            return None
+        return max(r, key=lambda tid: self.prio[tid])
+
+    def first(self, sim):
+        return self._best(sim)
+
+    def decide(self, sim, t, kind):
+        g = sim.gstep
+        if self.points and g >= self.points[0]:
+            while self.points and g >= self.points[0]:
+                self.points.pop(0)
+            self.low -= 1
+            self.prio[t.idx] = self.low
+            best = self._best(sim)
+            if best is not None and best != t.idx:
+                return best
+        return None
+
+    def on_yield(self, sim, t):
+        return self._best(sim, exclude=t.idx)
 
 
 class Replay(Policy):
@@ -535,7 +588,8 @@ class Sim:
     """One simulated run of ``programs`` (list of lists of callables ``op(sim, tid)``)."""
 
     def __init__(self, programs, policy, faults=None, prefix='', op_kinds=None, max_steps=3_000_000,
-                 wall_timeout=60.0, on_switch=None):
+                 wall_timeout=60.0, on_switch=None, opcodes=False):
+        self.opcodes = opcodes
         self.threads = [SimThread(i, p) for i, p in enumerate(programs)]
         self.policy = policy
         self.faults = dict(faults or {})
@@ -573,7 +627,7 @@ class Sim:
         if f is None or not t.in_op:
             return ('-', 0)
         try:
-            return (f.f_code.co_name, f.f_lineno)
+            return (f.f_code.co_name, f.f_lineno or 0)
         except Exception:  # pragma: no cover
             return ('?', 0)
 
@@ -684,8 +738,14 @@ class Sim:
         gap_codes = self.gap_codes
         probe = self.probe
 
+        opcodes = self.opcodes
+
         def local(frame, event, arg):
             if event == 'line':
+                if not opcodes:
+                    t.frame = frame
+                    step(t, 'line')
+            elif event == 'opcode':
                 t.frame = frame
                 step(t, 'line')
             elif event == 'return':
@@ -702,6 +762,8 @@ class Sim:
                             probe('callee_reentered_by_peer_inside_return_gap')
                             break
                 t.frame = frame
+                if opcodes:
+                    frame.f_trace_opcodes = True
                 step(t, 'call')
                 return local
             return None
